@@ -7,11 +7,13 @@
 #ifndef CL
 #define CL 3
 #endif
-static void der_case(size_t zx, size_t zy)
+static void der_case(size_t zx, size_t zy, uint8_t fx, uint8_t fy)
 {
 	SM2_CIPHERTEXT C, B; memset(&C, 0, sizeof(C));
 	for (size_t i = 0; i < 32; i++) { C.point.x[i] = (i < zx) ? 0 : nondet_u8(); C.point.y[i] = (i < zy) ? 0 : nondet_u8(); }
-	ASSUME(C.point.x[zx] != 0 && C.point.y[zy] != 0);      /* exactly zx / zy leading zero bytes */
+	/* first significant byte concrete (one value with, one without the top bit) so that the encoder's
+	 * leading-zero loop has a concrete trip count; all other bytes arbitrary */
+	C.point.x[zx] = fx; C.point.y[zy] = fy;
 	for (int i = 0; i < 32; i++) C.hash[i] = nondet_u8();
 	for (int i = 0; i < CL; i++) C.ciphertext[i] = nondet_u8();
 	C.ciphertext_size = CL;
@@ -26,9 +28,15 @@ static void der_case(size_t zx, size_t zy)
 }
 void h_ciphertext_roundtrip(void)
 {
-	size_t zx = nondet_size(), zy = nondet_size(); ASSUME(zx <= 2 && zy <= 2);
-	for (size_t a = 0; a <= 2; a++) if (zx == a) {
-		for (size_t b = 0; b <= 2; b++) if (zy == b) { der_case(a, b); break; }
+	#ifndef ZMAX
+#define ZMAX 2
+#endif
+	size_t zx = nondet_size(), zy = nondet_size(); ASSUME(zx <= ZMAX && zy <= ZMAX);
+	for (size_t a = 0; a <= ZMAX; a++) if (zx == a) {
+		for (size_t b = 0; b <= ZMAX; b++) if (zy == b) {
+			int v = nondet_int(); ASSUME(v >= 0 && v < 4);
+			if (v == 0) der_case(a, b, 0x5a, 0x5a); else if (v == 1) der_case(a, b, 0x85, 0x5a); else if (v == 2) der_case(a, b, 0x5a, 0x85); else der_case(a, b, 0x85, 0x85);
+			break; }
 		break;
 	}
 	V_REACH();
